@@ -32,6 +32,8 @@ fix = Function('fix', SetS, Sq, I, I)    # index map of filt into s
 fjx = Function('fjx', SetS, Sq, I, I)    # inverse of the index map
 addall = Function('addall', Sq, Sq, Sq)  # s ++ first occurrences of members of t not already present
 cnt = Function('cnt', Sq, V, I)          # number of occurrences
+seqeq = Function('seqeq', Sq, Sq, B)     # sequence equality: as a hypothesis it yields term equality (sequences are extensional),
+eqw = Function('eqw', Sq, Sq, I)         # as a goal it is refuted by a witness index where the two differ
 
 None_ = Const('None_', V)
 True_ = Const('True_', V)
@@ -82,6 +84,9 @@ def axioms():
     A('nodup_def1', ForAll([s, i], Implies(And(nodup(s), 0 <= i, i < slen(s)), pos(s, at(s, i)) == i),
                            patterns=[MultiPattern(nodup(s), at(s, i))]))
     A('nodup_def2', ForAll([s], Or(nodup(s), Exists([i], And(0 <= i, i < slen(s), pos(s, at(s, i)) != i))), patterns=[nodup(s)]))
+    A('seqeq_elim', ForAll([s, t], Implies(seqeq(s, t), s == t), patterns=[seqeq(s, t)]))
+    A('seqeq_intro', ForAll([s, t], Or(seqeq(s, t), slen(s) != slen(t),
+                                       And(0 <= eqw(s, t), eqw(s, t) < slen(s), at(s, eqw(s, t)) != at(t, eqw(s, t)))), patterns=[seqeq(s, t)]))
     A('empty', And(slen(sempty) == 0, ForAll([x], Not(mem(sempty, x)), patterns=[mem(sempty, x)])))
     A('len0_empty', ForAll([s], Implies(slen(s) == 0, s == sempty), patterns=[slen(s)]))
     # app
@@ -137,6 +142,9 @@ def axioms():
     A('filt_mem', ForAll([P, s, y], mem(r, y) == And(mem(s, y), Select(P, y)), patterns=[mem(r, y), MultiPattern(r, mem(s, y))]))
     A('filt_snoc', ForAll([P, s, x], filt(P, app(s, x)) == If(Select(P, x), app(filt(P, s), x), filt(P, s)), patterns=[filt(P, app(s, x))]))
     A('filt_nil', ForAll([P], filt(P, sempty) == sempty, patterns=[filt(P, sempty)]))
+    # congruence: predicates that agree on the members of s give the same filter (inductive fact; Lean: lemmas/Filter.lean)
+    A('filt_cong', ForAll([P, Q, s], Or(Exists([x], And(mem(s, x), Select(P, x) != Select(Q, x))), filt(P, s) == filt(Q, s)),
+                          patterns=[MultiPattern(filt(P, s), filt(Q, s))]))
     A('filt_nodup', ForAll([P, s], Implies(nodup(s), nodup(r)), patterns=[r]))
     # addall(s, t): snoc-recursive over t
     A('addall_nil', ForAll([s], addall(s, sempty) == s, patterns=[addall(s, sempty)]))
@@ -145,6 +153,8 @@ def axioms():
     A('addall_mem', ForAll([s, t, y], mem(addall(s, t), y) == Or(mem(s, y), mem(t, y)), patterns=[mem(addall(s, t), y)]))
     A('addall_nodup', ForAll([s, t], Implies(nodup(s), nodup(addall(s, t))), patterns=[addall(s, t)]))
     A('addall_prefix', ForAll([s, t, i], Implies(And(0 <= i, i < slen(s)), at(addall(s, t), i) == at(s, i)), patterns=[at(addall(s, t), i)]))
+    # appending a duplicate-free sequence that shares no member with s is plain concatenation (inductive; Lean: lemmas/Filter.lean)
+    A('addall_cat', ForAll([s, t], Or(addall(s, t) == cat(s, t), Not(nodup(t)), Exists([x], And(mem(t, x), mem(s, x)))), patterns=[addall(s, t)]))
     A('addall_len', ForAll([s, t], slen(addall(s, t)) >= slen(s), patterns=[addall(s, t)]))
     # boxing
     A('ibox', ForAll([i], And(iunbox(ibox(i)) == i, is_int(ibox(i)), Not(is_ref(ibox(i))), Not(is_tup(ibox(i))), truthy(ibox(i)) == (i != 0)), patterns=[ibox(i)]))
@@ -281,9 +291,9 @@ def fresh(name, sort):
 
 
 def seq_eq(s, t):
-    k = fresh_int('q')
-    return And(slen(s) == slen(t), QForAll([k], Implies(And(0 <= k, k < slen(s)), at(s, k) == at(t, k)),
-                                         patterns=[at(s, k), at(t, k)]))
+    if s.eq(t):
+        return BoolVal(True)
+    return seqeq(s, t)
 
 
 def seq_nodup(s):
